@@ -134,7 +134,32 @@ func TestGovcBoundedC20Chunks(t *testing.T) {
 			}
 		}
 	}
-	fmt.Printf("GOVC-BOUNDED name=c20-chunk-independence bound=all_texts_of_length_<=%d_over_{x,newline,>,blank}_x_3_prefixes_x_all_chunkings evaluations=%d distinct=%d\n", maxLen, evals, distinct)
+	// nested writers: an inner writer made on top of an outer one, at any point of the outer
+	// writer's text (mid-line too), written to in turn with the outer one: what reaches the
+	// destination is the outer rendering of (first part, inner rendering of the second part,
+	// third part) -- the inner writer's lines go through the outer writer, nothing is collapsed
+	nestLen := 4
+	for _, t1 := range govcTexts(nestLen-1, "x\n") {
+		for _, t2 := range govcTexts(nestLen-1, "x\n") {
+			for _, t3 := range []string{"", "y", "\n", "y\n"} {
+				evals++
+				var buf bytes.Buffer
+				outer := NewWriter(&buf, "> ")
+				outer.Write([]byte(t1))
+				inner := NewWriter(outer, "--")
+				for i := 0; i < len(t2); i++ {
+					inner.Write([]byte{t2[i]})
+				}
+				outer.Write([]byte(t3))
+				in2, _ := govcRender("--", t2)
+				want, _ := govcRender("> ", t1+string(in2)+t3)
+				if buf.String() != string(want) {
+					fmt.Printf("GOVC-FAIL name=c20-chunks nested writers: outer %q, inner %q, outer %q: output %q, want %q\n", t1, t2, t3, buf.String(), want)
+				}
+			}
+		}
+	}
+	fmt.Printf("GOVC-BOUNDED name=c20-chunk-independence bound=all_texts_of_length_<=%d_over_{x,newline,>,blank}_x_3_prefixes_x_all_chunkings,_nested_writers_over_all_texts_of_length_<=3 evaluations=%d distinct=%d\n", maxLen, evals, distinct)
 }
 
 func TestGovcBoundedC20ShortWrites(t *testing.T) {
